@@ -345,7 +345,11 @@ func runSpec(idx int, rs RunSpec, emit func(RunRes)) {
 			}
 			res := RunRes{Idx: idx, Prog: rs.Prog, Cfg: rs.Cfg, Phase: ph, Attempts: try, Retried: retried}
 			t0 := time.Now()
-			attempt(pr, p, rs.Cfg, &res, ss)
+			if pr.Bytes != nil {
+				bytesAttempt(pr, rs.Cfg, &res, ss)
+			} else {
+				attempt(pr, p, rs.Cfg, &res, ss)
+			}
 			res.Ms = time.Since(t0).Milliseconds()
 			results = append(results, res)
 			if res.Hung {
